@@ -101,6 +101,13 @@ func image(conf, layer []byte, subject *types.Descriptor) []byte {
 
 var manI1 = image(blobC, blobL1, nil)
 var manI2 = image(blobC, blobL2, nil)
+// manXA: an index (no children) whose subject is I1
+var manXA = func() []byte {
+	b, _ := json.Marshal(types.Index{SchemaVersion: 2, MediaType: types.MediaTypeOCI1ManifestList, ArtifactType: "application/x.test", Manifests: []types.Descriptor{},
+		Subject: &types.Descriptor{MediaType: types.MediaTypeOCI1Manifest, Digest: digest.Canonical.FromBytes(manI1), Size: int64(len(manI1))}})
+	return b
+}()
+
 var manA1 = image(blobE, blobL1, &types.Descriptor{MediaType: types.MediaTypeOCI1Manifest, Digest: digest.Canonical.FromBytes(manI1), Size: int64(len(manI1))})
 
 // writeTemplate writes a valid layout: repository r with I1 tagged t and a few blobs.
@@ -422,6 +429,15 @@ func probeFlags(r *run, store, dir string, a []int, conf string, args []string, 
 		res.Probes++
 		if (ap.h.Get("Oci-Subject") != "") != ref {
 			add(conf, args, "referrers-flag", "oci-subject-header-vs-flag", "referrers enabled=%v but OCI-Subject=%q on an artifact push", ref, ap.h.Get("Oci-Subject"))
+		}
+	}
+	// the same for an artifact that is an index (a second code path in the manifest push)
+	xp := do(s, "PUT", "/v2/r/manifests/"+dg(manXA), manXA, "Content-Type", types.MediaTypeOCI1ManifestList)
+	expect("index artifact push", xp, canPush, 201)
+	if canPush && xp.status == 201 {
+		res.Probes++
+		if (xp.h.Get("Oci-Subject") != "") != ref {
+			add(conf, args, "referrers-flag", "oci-subject-header-vs-flag:index-artifact", "referrers enabled=%v but OCI-Subject=%q on the push of an index with a subject", ref, xp.h.Get("Oci-Subject"))
 		}
 	}
 	expect("blob delete", do(s, "DELETE", "/v2/r/blobs/"+dg(blobL2)+"x", nil), false, 0) // malformed digest is refused whatever the flags
